@@ -58,6 +58,9 @@ class Scenario:
                 async def connect(sid, environ, auth=None):
                     log.append(('connect', ns, sid, None))
                     await gate.pause('h:connect')
+                    if isinstance(environ, dict) and \
+                            environ.get('verif.refuse'):
+                        return False
 
                 async def disconnect(sid, reason):
                     log.append(('disconnect', ns, sid, reason))
@@ -85,6 +88,9 @@ class Scenario:
         self.s1 = self.t.sids.get(NS)
         self.s1b = self.t.sids.get(SIB)
         d.api('enter_room', self.s1, 'room', namespace=NS)
+        # a second transport whose CONNECT to NS will be refused
+        self.t2 = d.open(environ={'verif.transport': 2,
+                                  'verif.refuse': True})
         self.client_disc = collections.Counter()   # sid -> DISCONNECTs fed
         self.lost = False
         self.events = []       # (tok, sid_at_feed or None, connected_at_feed)
@@ -137,6 +143,14 @@ class Scenario:
         await self.gate.pause('between')
         await self.feed(frames(R.CONNECT, NS))
 
+    async def a_refuse2(self):
+        """Another client's CONNECT to the namespace is refused (its
+        rollback must not disturb the sessions that are disconnecting)."""
+        await self.gate.pause('start')
+        for f in frames(R.CONNECT, NS):
+            await self.t2.socket.receive(eio_packet.Packet(
+                eio_packet.MESSAGE, f))
+
     async def a_event(self):
         for tok in (1, 2):
             await self.gate.pause('start')
@@ -150,7 +164,7 @@ class Scenario:
         table = {'sdisc': self.a_sdisc, 'sdisc2': self.a_sdisc,
                  'cdisc': self.a_cdisc, 'sibling': self.a_sibling,
                  'lose': self.a_lose, 'recon': self.a_recon,
-                 'event': self.a_event}
+                 'event': self.a_event, 'refuse2': self.a_refuse2}
 
         async def quiesce():
             for _ in range(300):
@@ -322,7 +336,8 @@ def specs():
     for tri in (['sdisc', 'cdisc', 'lose'], ['sdisc', 'recon', 'event'],
                 ['sdisc', 'sibling', 'lose'], ['cdisc', 'lose', 'event'],
                 ['sdisc', 'cdisc', 'event'], ['sdisc', 'lose', 'recon'],
-                ['sdisc', 'sdisc2', 'cdisc']):
+                ['sdisc', 'sdisc2', 'cdisc'], ['sdisc', 'refuse2', 'cdisc'],
+                ['sdisc', 'refuse2', 'lose'], ['cdisc', 'refuse2', 'lose']):
         out.append({'actors': tri})
     return out
 
@@ -388,7 +403,7 @@ def run_part(ctx, budget_s=None):
     # random schedules of the triples with whatever time is left
     k = 0
     while ctx.time_left() > t_end and not ctx.too_many_violations():
-        spec = sp[-1 - (k % 7)]
+        spec = sp[-1 - (k % 10)]
         rng = ctx.case_rng(10 ** 6 + k)
         explore(ctx, spec, 1, rng=rng)
         ctx.count('random_async_schedules')
